@@ -223,15 +223,17 @@ fn judge_defs(n: &Node, at: &Complex<f64>, got: Option<&Complex<f64>>) -> Judge 
     match eval_defs(n, (at.re, at.im)) {
         None => Judge::Skip("value not compared"),
         Some((w, tol)) => {
-            if !(w.0.is_finite() && w.1.is_finite()) {
+            if !(w.0.is_finite() && w.1.is_finite()) && tol != 0.0 {
                 return Judge::Skip("U3: non-finite complex result");
             }
             match got {
                 None => Judge::Bad(Kind::WellFormedErr, format!("Ok({:?}+{:?}i)", w.0, w.1)),
                 Some(g) => {
                     let ok = if tol == 0.0 {
-                        // + - * and negation: the component formulas exactly (signed zeros aside)
-                        g.re == w.0 && g.im == w.1
+                        // + - * and negation: the component formulas exactly — the same double in each
+                        // component, signed zeros, infinities and NaN (as a class) included
+                        let same = |a: f64, b: f64| a.to_bits() == b.to_bits() || (a.is_nan() && b.is_nan());
+                        same(g.re, w.0) && same(g.im, w.1)
                     } else {
                         let m = modulus(w);
                         modulus((g.re - w.0, g.im - w.1)) <= tol * m
@@ -285,6 +287,28 @@ pub fn c08(cx: &RunCtx) {
     };
     let (st, desc) = explore_trees::<Cpx>(&cfg, &cx.rec);
     eprintln!("[C08] trees {} compared {} viol {}", st.nodes, st.compared, cx.rec.total());
+    cx.add_run(&st, desc);
+
+    // the exact operations once more, depth 2, with the special components that only a placeholder can carry
+    // (infinities, NaN, negative zeros, subnormals, MAX) and the literal leaves
+    let mut special = pool_cpx();
+    for v in Cpx::pool_full() {
+        special.push(Leaf::at(v));
+    }
+    let cfg_x = TreeCfg::<Cpx> {
+        engine: "E-TREE complex + - * and negation over special components (exact)".into(),
+        bins: [Add, Sub, Mul].iter().map(|b| BinKind::Op(*b)).collect(),
+        uns: vec![UnOp::Neg],
+        pool: special,
+        pool3: vec![],
+        depth: 2,
+        kinds: &kinds,
+        judge: Some(&judge_defs),
+        on_ok: None,
+        family: None,
+    };
+    let (st, desc) = explore_trees::<Cpx>(&cfg_x, &cx.rec);
+    eprintln!("[C08] exact-operation trees {} compared {} viol {}", st.nodes, st.compared, cx.rec.total());
     cx.add_run(&st, desc);
 
     // depth 1 over a dense grid of operands off the axes (every quadrant, inside and outside the unit circle,
@@ -368,6 +392,42 @@ pub fn real_vs_complex(cx: &RunCtx) {
             inputs.push(format!("{}({})", n, x));
             inputs.push(format!("{}(-{})", n, x));
         }
+    }
+    // extreme magnitudes (where a formula that squares or inverts its argument leaves the double range) and
+    // operands next to the edges of the real domains, as literals
+    let mut ext: Vec<String> = Vec::new();
+    for n in [20usize, 100, 153, 154, 155, 160, 170, 200, 250] {
+        ext.push(format!("1{}", "0".repeat(n)));
+        ext.push(format!("0.{}1", "0".repeat(n - 1)));
+    }
+    for t in [
+        "1.0000001", "0.9999999", "1.000000001", "0.999999999", "1.0000000000001", "0.9999999999999", "100", "700", "709", "710", "1000", "1000000", "0.000001", "0.001", "20", "30", "37", "50",
+        "1.5707963267948966", "3.141592653589793", "6.283185307179586", "2.718281828459045",
+    ] {
+        ext.push(t.to_string());
+    }
+    for n in names1 {
+        for x in &ext {
+            inputs.push(format!("{}({})", n, x));
+            inputs.push(format!("{}(-{})", n, x));
+        }
+    }
+    for x in &ext {
+        for o in ["+", "-", "*", "/", "^"] {
+            for y in ["2", "0.5", "3"] {
+                inputs.push(format!("{}{}{}", x, o, y));
+                inputs.push(format!("{}{}{}", y, o, x));
+            }
+        }
+        for n in ["pow", "root", "log"] {
+            for y in ["2", "0.5", "3", "10"] {
+                inputs.push(format!("{}({},{})", n, x, y));
+                inputs.push(format!("{}({},{})", n, y, x));
+            }
+        }
+        inputs.push(format!("{}°", x));
+        inputs.push(format!("{}rad", x));
+        inputs.push(format!("{}²", x));
     }
     for n in ["pow", "root", "log"] {
         for x in &reals {
